@@ -11,7 +11,8 @@ Code modelled (written as it is, quirks included):
   * phase 2 (`step2`/`phase2`): for `u` in `RPO`, if unvisited, a BFS over `G_T` with a `visited` set and a deque; result
     `SCCs` (groups in creation order, members in insertion order) and the map `v_SCC` (an association list, an entry
     is added when a vertex is popped from the deque, as in the code);
-  * `gnew`: `G_new[scc_u].add(scc_v)` for every edge `u → v` with `scc_u != scc_v` (iteration `for u, vs in G.items()`).
+  * `gnewRows` / `Kos.gn`: `G_new[scc_u].add(scc_v)` for every edge `u → v` with `scc_u != scc_v` (iteration
+    `for u, vs in G.items()`); the dict of sets is a list of rows (insertion order), read as a graph by `rowOf`.
 * `DynamicSchedulePass.schedule_intra_cycle` lines 66-87 (`indeg`, `topoInit`, `step3`, `sccSchedule`): `InD` counts, the
   worklist `Q`, `scc_schedule`, `scc_pred`. The worklist discipline is a parameter `pick` (index of the element that
   is popped, as a function of the schedule so far and the worklist): `pickLast` is `Q.pop()` of DynamicSchedulePass,
@@ -119,25 +120,38 @@ def vscc (vm : List (Nat × Nat)) (v : Nat) : Nat := (vm.lookup v).getD 0
 
 /-! ## the condensation `G_new` -/
 
-def addEdge (vm : List (Nat × Nat)) (gn : Graph) (u v : Nat) : Graph :=
+/-- `rows[i] = r`, for a dict `{ i: set() for i in range(...) }` kept as a list of rows (missing rows are empty) -/
+def setRow : List (List Nat) → Nat → List Nat → List (List Nat)
+  | [], 0, r => [r]
+  | [], k+1, r => [] :: setRow [] k r
+  | _ :: xs, 0, r => r :: xs
+  | x :: xs, k+1, r => x :: setRow xs k r
+
+def rowOf (rows : List (List Nat)) : Graph := fun i => rows.getD i []
+
+/-- `if scc_u != scc_v and scc_v not in G_new[ scc_u ]: G_new[ scc_u ].add( scc_v )` -/
+def addEdge (vm : List (Nat × Nat)) (rows : List (List Nat)) (u v : Nat) : List (List Nat) :=
   let su := vscc vm u
   let sv := vscc vm v
-  if su ≠ sv ∧ sv ∉ gn su then (fun i => if i = su then gn su ++ [sv] else gn i) else gn
+  if su ≠ sv ∧ sv ∉ rowOf rows su then setRow rows su (rowOf rows su ++ [sv]) else rows
 
-def gnew (G : Graph) (V : List Nat) (vm : List (Nat × Nat)) : Graph :=
-  V.foldl (fun gn u => (G u).foldl (fun gn v => addEdge vm gn u v) gn) (fun _ => [])
+def gnewRows (G : Graph) (V : List Nat) (vm : List (Nat × Nat)) : List (List Nat) :=
+  V.foldl (fun rows u => (G u).foldl (fun rows v => addEdge vm rows u v) rows) []
 
-/-- what `kosaraju_scc` computes -/
+/-- what `kosaraju_scc` computes (`rows`: the sets `G_new[i]` in insertion order) -/
 structure Kos where
   po : List Nat
   sccs : List (List Nat)
   vmap : List (Nat × Nat)
-  gn : Graph
+  rows : List (List Nat)
+
+/-- `G_new` as a graph -/
+def Kos.gn (k : Kos) : Graph := rowOf k.rows
 
 def kosaraju (G GT : Graph) (V : List Nat) : Kos :=
   let po := postOrder G V
   let p := phase2 GT V po.reverse
-  ⟨po, p.sccs, p.vmap, gnew G V p.vmap⟩
+  ⟨po, p.sccs, p.vmap, gnewRows G V p.vmap⟩
 
 /-! ## SCC-level topological sort -/
 
@@ -223,7 +237,8 @@ def orderTopoB (E : List (Nat × Nat)) (groups : List (List Nat)) (order : List 
 
 /-- `order` lists every group index exactly once -/
 def orderPermB (groups : List (List Nat)) (order : List Nat) : Bool :=
-  decide (order.Nodup) && order.all (fun i => decide (i < groups.length)) && decide (order.length = groups.length)
+  decide (order.Nodup) && order.all (fun i => decide (i < groups.length)) && decide (order.length = groups.length) &&
+  (List.range groups.length).all (fun i => decide (i ∈ order))
 
 /-- the condensation has no cycle: Kahn's elimination on the group graph removes every group -/
 def condEdges (E : List (Nat × Nat)) (groups : List (List Nat)) : List (Nat × Nat) :=
